@@ -163,16 +163,22 @@ PROPERTIES["C11"] = dict(
 PROPERTIES["C35"] = dict(
     title="Results do not depend on stream chunking, and I/O errors are never hidden",
     level="model_checking",
+    engine="kani",
+    technique="bounded model checking of the compiled sniffer/stream_len (Kani/CBMC/CaDiCaL) under a symbolic I/O schedule + symbolic execution of "
+              "ReaderUtils::read_to_vec's SOURCE (syn AST -> bit-vector SMT, z3) over a faulty in-memory stream model (symbolic short reads and read failures)",
+    smt=dict(module="props_c35", K=6, N=24, timeout_ms=600000),
     level_text=("Bounded model checking of the shared stream kernels under a symbolic I/O schedule: the harness stream returns a "
                 "solver-chosen number of bytes (>=1) on every read and can fail at a solver-chosen call index; CBMC decides for ALL "
                 "schedules, ALL contents up to 24 bytes and ALL positions that the result equals the full-read result and that an "
                 "injected error is never turned into Ok."),
-    level_note=("Kernel-level: format sniffing (container_from_stream) and io_utils::stream_len. ReaderUtils::read_to_vec is not covered. The "
+    level_note=("Kernel-level: format sniffing (container_from_stream) and io_utils::stream_len under Kani; ReaderUtils::read_to_vec under Engine Z "
+                "(data up to 4/6 bytes, every position and length, up to 5/7 scheduled reads each short (>=1 byte) or failing; std's read_to_end through "
+                "Take is modelled as a loop of such reads and validated against the real std on concrete schedules every run). The "
                 "per-format handlers, Store and signing are outside (not executable symbolically). Trusted: Kani, CBMC, CaDiCaL; "
                 "the SymStream model of Read+Seek (short reads >= 1 byte, ErrorKind::Other failures)."),
-    scope="jumbf_io::container_from_stream and io_utils::stream_len driven by a symbolic-schedule stream",
+    scope="jumbf_io::container_from_stream and io_utils::stream_len driven by a symbolic-schedule stream (Kani); <R as ReaderUtils>::read_to_vec from source over the faulty stream model (Engine Z)",
     outside=["asset handler read loops, BoxReader, Store, Builder::sign", "write-side short writes", "streams longer than 24 bytes",
-             "ReaderUtils::read_to_vec (std's read_to_end did not terminate under CBMC within 40 min for 4-byte streams)",
+             "ReaderUtils::read_to_vec under Kani (std's read_to_end did not terminate under CBMC within 40 min for 4-byte streams; it is covered from source by Engine Z instead)",
              "fault injection into the sniffer (harness ran out of memory after the sniffing loop was introduced by the fix)"],
     assumptions=_TRUST + ["a read never returns 0 bytes while data remains (Read contract)", "failures are io::ErrorKind::Other"],
     harnesses=[
